@@ -814,9 +814,7 @@ func genJwsRead(r *Runner, prop string) {
 			if i >= jx {
 				continue
 			}
-			if quick && !(identityMut(a.name) || identityMut(b.name)) && rng.Intn(3) != 0 {
-				continue
-			}
+			// every pair, in every tier
 			s := schemes[rng.Intn(2)]
 			jobs = append(jobs, jwsJob{label: "pair", keyID: "ec256-0", n: 2, scheme: s, muts: []jwsMut{a, b}, ext: rng.Intn(3), expiry: rng.Intn(3) == 0})
 		}
